@@ -299,6 +299,8 @@ pub struct Emitter<'p> {
     targ_has_default: Vec<DeclId>,
     /// multiclass name -> (parameters, parameters without default)
     mc_params: BTreeMap<String, (usize, usize)>,
+    /// bindings of the enclosing `let ... in` statements: (name, file, name range, value span, applied)
+    pending_lets: Vec<(String, usize, (usize, usize), (usize, usize), bool)>,
     /// names declared more than once (a forward declaration and its definition): which of the
     /// declarations a use of the NAME denotes is left open; members are judged normally
     redeclared: Vec<String>,
@@ -331,6 +333,7 @@ pub fn emit_with(prog: &Program, trivia: bool) -> Emitted {
         cur_probe: None,
         targ_has_default: Vec::new(),
         mc_params: BTreeMap::new(),
+        pending_lets: Vec::new(),
         redeclared: Vec::new(),
         trivia,
     };
@@ -887,6 +890,19 @@ impl<'p> Emitter<'p> {
                 }
             }
         }
+        // as in llvm-tblgen, the enclosing lets take effect once the parents are known: the first record
+        // that has the field is where the name resolves and where the value is checked
+        for i in 0..self.pending_lets.len() {
+            if self.pending_lets[i].4 {
+                continue;
+            }
+            let Some((d, ty)) = self.find_field(rec, &self.pending_lets[i].0) else { continue };
+            self.pending_lets[i].4 = true;
+            let (name, file, r, span, _) = self.pending_lets[i].clone();
+            self.out.decls[d].uses.push((file, r));
+            self.out.occs.push(Occ { file, range: r, name, target: Some(d), is_decl: false, judged: true, probe: None, role: Role::LetTarget });
+            self.out.slots.push(Slot { file, span, expected: ty, what: "group let" });
+        }
     }
 
     fn body(&mut self, body: &Option<Vec<BI>>, rec: usize, children: &mut Vec<Sym>) {
@@ -1102,19 +1118,32 @@ impl<'p> Emitter<'p> {
             Item::Let { binds, body, braces } => {
                 let start = self.pos();
                 self.w("let ");
+                let outer = self.pending_lets.len();
                 for (i, (n, v)) in binds.iter().enumerate() {
                     if i > 0 {
                         self.w(", ");
                     }
+                    let ns = self.pos();
                     self.w(n);
+                    if self.trivia {
+                        self.w(" /*u*/");
+                    }
                     self.w(" = ");
+                    let vs = self.pos();
                     self.expr(v);
+                    self.pending_lets.push((n.clone(), self.file, (ns, ns + n.len()), (vs, self.pos()), false));
                 }
                 self.w(" in ");
                 // a group let opens a scope for local variables
                 self.scopes.push(Scope::Block { vars: vec![] });
                 self.block(body, *braces);
                 self.scopes.pop();
+                // a binding no record of the body has a field for is not in the property's list: recorded, not judged
+                for (n, file, r, _, applied) in self.pending_lets.split_off(outer) {
+                    if !applied {
+                        self.out.occs.push(Occ { file, range: r, name: n, target: None, is_decl: false, judged: false, probe: None, role: Role::LetTarget });
+                    }
+                }
                 self.fold(start);
             }
             Item::If { cond, then, then_braces, els } => {
